@@ -389,6 +389,11 @@ func Params(args ...string) RunnerOption {
 				continue
 			}
 			value := fp.value()
+			if value == "" && r.stdout == nil {
+				// Listing the options, but no standard output was supplied
+				// yet, e.g. via [New] without a previous [StdIO]: discard it.
+				continue
+			}
 			if value == "" && enable {
 				for i, opt := range &posixOptsTable {
 					r.printOptLine(opt.name, r.opts[i], true)
